@@ -17,24 +17,34 @@ EXTENDS Integers, Sequences, FiniteSets, TLC, Json, IOUtils, SequencesExt
 CONSTANT MaxDev
 
 (* ---- client assertions ----------------------------------------------------- *)
-CAVals == [ method : {"private_key_jwt", "client_secret_basic", "none", "client_secret_jwt"},
-            regalg : {"RS256", "ES256"},
+CAVals == [ method : {"private_key_jwt", "client_secret_basic", "client_secret_post", "none", "client_secret_jwt", "plain_client"},   \* plain_client: not an OpenID Connect registration at all
+            regalg : {"RS256", "ES256", "PS256"},
             alg    : {"registered", "other_asymmetric", "HS256", "none"},
             kid    : {"right", "absent", "unknown"},
             key    : {"registered", "other_client", "unregistered"},
+            \* where the registered keys live: in the registration, behind jwks_uri, or behind a jwks_uri whose cached copy is stale
+            \* (the key was rotated in: a forced refresh finds it)
+            keysrc : {"inline", "uri", "uri_stale"},
             iss    : {"client", "other", "absent"},
             sub    : {"client", "other", "absent"},
             \* child_path / with_query / other_case: URLs that merely start with, extend or re-spell the token URL -- "contains the token URL" is equality of one element
             aud    : {"token_url", "other", "list_with_token_url", "list_without", "absent", "child_path", "with_query", "list_child_path"},
             exp    : {"future", "past", "absent", "string"},
-            jti    : {"fresh", "absent"} ]
-CAGood == [method |-> "private_key_jwt", regalg |-> "RS256", alg |-> "registered", kid |-> "right", key |-> "registered",
-           iss |-> "client", sub |-> "client", aud |-> "token_url", exp |-> "future", jti |-> "fresh"]
+            jti    : {"fresh", "absent"},
+            \* how the assertion is put into the form
+            form   : {"normal", "empty_assertion", "unknown_type", "with_other_client_id"} ]
+CAGood == [method |-> "private_key_jwt", regalg |-> "RS256", alg |-> "registered", kid |-> "right", key |-> "registered", keysrc |-> "inline",
+           iss |-> "client", sub |-> "client", aud |-> "token_url", exp |-> "future", jti |-> "fresh", form |-> "normal"]
 CAFields == DOMAIN CAGood
 CADev(r) == Cardinality({f \in CAFields : r[f] # CAGood[f]})
 CAAccept(r) ==
   /\ r.method = "private_key_jwt" /\ r.alg = "registered" /\ r.key = "registered" /\ r.kid \in {"right", "absent"}
   /\ r.iss = "client" /\ r.sub = "client" /\ r.aud \in {"token_url", "list_with_token_url"} /\ r.exp = "future" /\ r.jti = "fresh"
+  /\ r.form = "normal"
+  \* with a stale cached key set an assertion WITHOUT kid is checked against whatever key the stale set offers (the refresh is
+  \* triggered by a key that cannot be found, and without kid any key of the right type is "found"): refused, which the
+  \* statement (an "only if") permits
+  /\ (r.keysrc = "uri_stale" => r.kid = "right")
 CARows == { [tbl |-> "CA", f |-> r, accept |-> CAAccept(r)] : r \in {x \in CAVals : CADev(x) <= MaxDev} }
 
 (* ---- JWT-bearer grants ------------------------------------------------------- *)
